@@ -1,6 +1,6 @@
 (* Non-vacuity of the end-to-end shortest-path theorems (Proofs/DijkstraWF.v) on a graph
-   built by a history, and the reason why multi_source / all_pairs need non-negative
-   weights for totality. *)
+   built by a history, and what the entry points do on a graph with a negative weight
+   (the Err of the per-source search is propagated, never unwrapped: F22). *)
 From Coq Require Import String List Bool ZArith QArith Arith Lia.
 From GV Require Import Base.Outcome Base.AMap Model.GState Model.Creation Model.Query Model.Dijkstra.
 From GV Require Import Spec.History Spec.EdgeStoreGraph Proofs.WFDefs Proofs.HistoryOk Proofs.DijkstraModelOk Proofs.DijkstraWF.
@@ -47,15 +47,40 @@ Proof.
   split; [|split]; vm_compute; eexists; split; reflexivity.
 Qed.
 
-(* why multi_source / all_pairs need non-negative weights for totality: they unwrap the
-   per-source Result, so the ContradictoryPaths of a negative-weight graph is a panic
-   there, while single_source returns it as an Err *)
-Example negative_weights_panic :
+(* a negative weight (F22's graph: directed 1->2 (1), 1->3 (2), 3->2 (-5), weighted): the per-source
+   search from 1 returns ContradictoryPaths; single_source, multi_source and all_pairs all return it
+   through their error channel (before the repair of F22 the last two panicked: `.unwrap()` of the
+   per-source Result at dijkstra.rs:376 / :172); get_all_shortest_paths_involving, which has no error
+   channel, maps the Err of all_pairs to the empty vector.  The graph is reachable, hence WF, and small:
+   the totality theorems apply to it non-vacuously with a weight that is not "valid". *)
+Definition ex_neg_g : gstate Z Z :=
+  match ex_neg with Ok g => g | _ => new (mkspecs true DKeepLast MCreate false true SDrop) end.
+
+Lemma ex_neg_built : ex_neg = Ok ex_neg_g.
+Proof. vm_compute. reflexivity. Qed.
+
+Lemma ex_neg_WF : WF Z.eqb Z.ltb ex_neg_g.
+Proof.
+  exact (WF_reachable Z.eqb Z.ltb Zeqb_spec Zltb_asym Zltb_total _ _
+           (new_from_reachable Z.eqb Z.ltb Zeqb_spec _ _ _ _ ex_neg_built)).
+Qed.
+
+Example negative_weights_err :
   match ex_neg with
   | Ok g =>
+    WF Z.eqb Z.ltb g /\ small_adj g /\ ~ weights_nonneg g /\
     single_source Z.eqb g true 1%Z None None false true = Err ContradictoryPaths /\
-    multi_source Z.eqb 1 g true [1%Z] None None false true = Panic "dijkstra.rs:376" /\
-    all_pairs Z.eqb 1 g true None None false true = Panic "dijkstra.rs:172"
+    multi_source Z.eqb 1 g true [1%Z] None None false true = Err ContradictoryPaths /\
+    multi_source Z.eqb 1 g true [2%Z; 1%Z; 3%Z] None None false true = Err ContradictoryPaths /\
+    all_pairs Z.eqb 1 g true None None false true = Err ContradictoryPaths /\
+    get_all_shortest_paths_involving Z.eqb 1 g 3%Z true = Ok [] /\
+    (* hop count ignores the weights: every entry point answers *)
+    (exists mm, all_pairs Z.eqb 1 g false None None false true = Ok mm /\ length mm = 3%nat)
   | _ => False
   end.
-Proof. vm_compute. repeat split. Qed.
+Proof.
+  rewrite ex_neg_built. split; [exact ex_neg_WF|]. split; [vm_compute; reflexivity|]. split.
+  { intros H. assert (C : (0 <= -5)%Z); [|lia].
+    apply (H (mkedge 3%Z 2%Z (Some (-5)%Z) None) (-5)%Z); [vm_compute; tauto | reflexivity]. }
+  vm_compute. repeat split. eexists. split; reflexivity.
+Qed.
